@@ -1,9 +1,9 @@
 package main
 
 import (
-	"sort"
 	"go/token"
 	"go/types"
+	"sort"
 	"strings"
 
 	"golang.org/x/tools/go/ssa"
@@ -21,13 +21,13 @@ func init() {
 	register("C19", PropertyMeta{
 		Technique: "field-ownership audit of the recency order + decision tables of the directory operations + guard dominance at every victim-selection site",
 		Explanation: "Decides on mem/cache/directory_ops.go and its six victim-selection call sites: the recency order of a set is written only by DirectoryVisit (remove the way if listed, append it: a permutation stays a permutation) and DirectoryReset (identity); DirectoryFindVictim returns, while scanning in recency order, only a block that is neither locked nor being read; lookup and victim selection map an address to its set with the same function; " +
-			"at every call site, every use of the selected victim (the calls that evict, fetch into or write it) is dominated by the failing branches of `IsLocked` and `ReadCount > 0` tests on that victim, so the fallback (least recent block when all are busy) is never replaced while busy.",
+			"at every call site, every use of the selected victim (the calls that evict, fetch into or write it) is dominated by the failing branches of `IsLocked` and `ReadCount > 0` tests on that victim, so the fallback (least recent block when all are busy) is never replaced while busy. (reader-count-steps) a block's outstanding-reader count is only ever incremented or decremented by one, never assigned.",
 		NotDecided:  "reader counts never negative; uniqueness of valid tags per process — both depend on cross-event transaction flows.",
 		Assumptions: []string{},
 	}, runC19)
 	register("C27", PropertyMeta{
-		Technique: "guard dominance (insert only after a failed lookup of the same key) + decision table of the frame allocator's loop body",
-		Explanation: "Decides on mem/vm/mmu/translationmw.go: a page is inserted into the page table only on the path where the lookup of that same process and virtual address failed and auto-allocation is on (a miss without auto-allocation panics; a hit inserts nothing); the allocator returns a frame only when the reverse lookup of exactly that frame found no page, stores the cursor one page past it on that path, and otherwise advances the cursor by one page and probes again.",
+		Technique:   "guard dominance (insert only after a failed lookup of the same key) + decision table of the frame allocator's loop body",
+		Explanation: "Decides on mem/vm/mmu/translationmw.go: a page is inserted into the page table only on the path where the lookup of that same process and virtual address failed and auto-allocation is on (a miss without auto-allocation panics; a hit inserts nothing); the allocator returns a frame only when the reverse lookup of exactly that frame found no page, stores the cursor one page past it on that path, and otherwise advances the cursor by one page and probes again. (insert-alias) no in-place insertion into an index the allocator's ReverseLookup depends on aliases its own tail.",
 		NotDecided:  "overlap with pre-inserted pages of other sizes or alignments: the probe is an equality lookup on the frame base, a numeric matter.",
 		Assumptions: []string{},
 	}, runC27)
@@ -308,6 +308,7 @@ func runC17(c *Ctx) {
 }
 
 func runC19(c *Ctx) {
+	readerCountRule(c, "reader-count-steps")
 	idempotentStallRule(c, "idempotent-stall", func(pp string) bool { return strings.HasPrefix(pp, ModPath+"/mem/cache") }, 10)
 	p := c.P
 	dom := []int{0, 1, 2}
@@ -375,7 +376,9 @@ func runC19(c *Ctx) {
 		ok := len(t.Unsupported) == 0 && len(t.Rows) > 0
 		saw := false
 		for _, r := range t.Rows {
-			for _, s := range r.Stores(func(e *Effect) bool { return e.RecvHas(lruF) && strings.HasSuffix(e.RecvS, "]") && !strings.HasSuffix(e.RecvS, "LRUOrder") }) {
+			for _, s := range r.Stores(func(e *Effect) bool {
+				return e.RecvHas(lruF) && strings.HasSuffix(e.RecvS, "]") && !strings.HasSuffix(e.RecvS, "LRUOrder")
+			}) {
 				saw = true
 				if !strings.HasSuffix(s.RecvS, "["+s.Args[0]+"]") {
 					ok = false // slot j must hold way j
@@ -460,6 +463,9 @@ func runC19(c *Ctx) {
 }
 
 func runC27(c *Ctx) {
+	// the allocator asks the page table whether a frame is mapped (ReverseLookup);
+	// an index the table keeps for that must not lose entries when it is updated
+	insertAliasRule(c, "insert-alias", func(pp string) bool { return pp == pkgPath("mem/vm") || pp == pkgPath("mem/vm/mmu") })
 	indexMaintenanceRule(c, "index-maintenance")
 	p := c.P
 	dom := []int{0, 1, 2}
@@ -857,4 +863,95 @@ func indexMaintenanceRule(c *Ctx, rule string) {
 			"processTable."+fld.Name()+" indexes pages by "+key+", which update() can change, but update() does not maintain it: after a page is moved to another frame the index still lists its old frame, so a reverse lookup of the new frame finds nothing and the MMU's auto-allocation hands that occupied frame to another mapping (two mappings alias one frame)")
 	}
 	c.Check(n >= 1 && identity != "", rule, "instances", 0, "indexes found", "no map index maintained by insert() was recognised in processTable")
+}
+
+// tagInstallValidRule: a function that installs a tag into a directory block
+// (claims the way for a line) never marks that block invalid. The line must be
+// findable from the moment its way is claimed: the MSHR entry covers lookups only
+// until the fill data arrives, and an invalid, locked way with the line's tag is
+// skipped by the lookup and by the victim finder alike — a second request for the
+// line then claims another way, and the set holds the line twice.
+func tagInstallValidRule(c *Ctx, rule string, floor int) {
+	p := c.P
+	n := 0
+	for _, fn := range p.SrcFuncs(func(pp string) bool { return strings.HasPrefix(pp, ModPath+"/mem/cache") }) {
+		var tagBases []ssa.Value
+		for _, b := range fn.Blocks {
+			for _, in := range b.Instrs {
+				if st, ok := in.(*ssa.Store); ok {
+					if f := FieldOf(st.Addr); f != nil && f.Name() == "Tag" && strings.HasSuffix(f.Pkg().Path(), "/mem/cache") {
+						if fa, isFA := st.Addr.(*ssa.FieldAddr); isFA {
+							tagBases = append(tagBases, fa.X)
+						}
+					}
+				}
+			}
+		}
+		if len(tagBases) == 0 {
+			continue
+		}
+		n++
+		bad := ""
+		for _, b := range fn.Blocks {
+			for _, in := range b.Instrs {
+				st, ok := in.(*ssa.Store)
+				if !ok {
+					continue
+				}
+				f := FieldOf(st.Addr)
+				fa, isFA := st.Addr.(*ssa.FieldAddr)
+				if f == nil || !isFA || f.Name() != "IsValid" {
+					continue
+				}
+				same := false
+				for _, tb := range tagBases {
+					if tb == fa.X {
+						same = true
+					}
+				}
+				if same && constIs(st.Val, "false") {
+					bad = p.Rel(st.Pos())
+				}
+			}
+		}
+		c.Check(bad == "", rule, SSAFuncKey(fn), fn.Pos(), "the block whose tag is installed is not marked invalid",
+			"the function installs a line's tag into a directory block and marks the same block invalid ("+bad+"): once the MSHR entry is released the line is in neither the MSHR nor the directory, a second request for it claims another way, and later lookups return the stale copy (an acknowledged write becomes invisible)")
+	}
+	c.Floor(rule, floor)
+}
+
+// readerCountRule: a block's outstanding-reader count changes only by one at a
+// time — up when a read hit is admitted, down when it is served. Assigning it a
+// value (e.g. zeroing it when the line is invalidated) forgets readers that are
+// still in flight; their later decrement drives the count negative and the way
+// can never be chosen as a victim again.
+func readerCountRule(c *Ctx, rule string) {
+	p := c.P
+	inc, dec := 0, 0
+	for _, fn := range p.SrcFuncs(func(pp string) bool { return strings.HasPrefix(pp, ModPath+"/mem/cache") }) {
+		for _, b := range fn.Blocks {
+			for _, in := range b.Instrs {
+				st, ok := in.(*ssa.Store)
+				if !ok {
+					continue
+				}
+				f := FieldOf(st.Addr)
+				if f == nil || f.Name() != "ReadCount" || !strings.HasSuffix(f.Pkg().Path(), "/mem/cache") {
+					continue
+				}
+				step := 0
+				if bo, isBO := st.Val.(*ssa.BinOp); isBO && constIs(bo.Y, "1") && loadOfKey(bo.X, VKey(st.Addr)) {
+					switch bo.Op {
+					case token.ADD:
+						step, inc = 1, inc+1
+					case token.SUB:
+						step, dec = -1, dec+1
+					}
+				}
+				c.Check(step != 0, rule, SSAFuncKey(fn)+"#ReadCount", st.Pos(), "the reader count moves by exactly one",
+					"the block's outstanding-reader count is assigned rather than incremented or decremented: readers admitted earlier and not yet served are forgotten, their decrement later drives the count below zero, and a way with a non-zero count is never evicted again")
+			}
+		}
+	}
+	c.Check(inc >= 2 && dec >= 2, rule, "<sites>", 0, itoa(inc)+" increments and "+itoa(dec)+" decrements found", "fewer reader-count updates found than confirmed by hand (write-back and write-through caches each admit and serve read hits)")
 }
